@@ -1,5 +1,6 @@
 import Emerge.LALR
 import Emerge.Proofs.LR
+import Emerge.Proofs.Dominant
 /-
   C06 — the LALR(1) table for a user grammar parses exactly its language, per the directives.
 
@@ -80,6 +81,68 @@ theorem C06_resolution_sound (a : Nat) (acts : List (Nat × Nat)) (x : Nat × Na
   rcases this with h1 | h1
   · left; exact h1.symm
   · right; exact h1
+
+/-- the associativity `levelOf` reports is the one of the level it reports -/
+theorem levelOf_assoc (h : Handle) (i : Nat) (as : Assoc) (hl : LALR.levelOf g h = some (i, as)) :
+    ∃ hs, g.levels[i]? = some (as, hs) := by
+  obtain ⟨⟨⟨as', hs⟩, k⟩, hm, hf⟩ := List.exists_of_findSome?_eq_some hl
+  have := List.mem_zipIdx_iff_getElem?.mp hm
+  simp only at this hf
+  split at hf
+  · simp only [Option.some.injEq, Prod.mk.injEq] at hf
+    obtain ⟨rfl, rfl⟩ := hf
+    exact ⟨hs, this⟩
+  · cases hf
+
+/-- **"Takes precedence over" is asymmetric**: two actions never beat each other. -/
+theorem C06_beats_asymm (a : Nat) (x y : Nat × Nat)
+    (h1 : LALR.beats g a x y = some true) (h2 : LALR.beats g a y x = some true) : False := by
+  simp only [LALR.beats] at h1 h2
+  cases hx : LALR.levelOf g (LALR.handleOf g a x.1 x.2) with
+  | none => simp [hx] at h1
+  | some lx =>
+    cases hy : LALR.levelOf g (LALR.handleOf g a y.1 y.2) with
+    | none => simp [hx, hy] at h1
+    | some ly =>
+      obtain ⟨i, ax⟩ := lx
+      obtain ⟨j, ay⟩ := ly
+      simp only [hx, hy] at h1 h2
+      by_cases hij : i < j
+      · have : ¬ j < i := by omega
+        simp [hij, this] at h2
+      · by_cases hji : j < i
+        · simp [hij, hji] at h1
+        · have hijeq : i = j := by omega
+          subst hijeq
+          obtain ⟨hs1, e1⟩ := levelOf_assoc g _ i ax hx
+          obtain ⟨hs2, e2⟩ := levelOf_assoc g _ i ay hy
+          rw [e1] at e2
+          simp only [Option.some.injEq, Prod.mk.injEq] at e2
+          obtain ⟨rfl, _⟩ := e2
+          simp only [Nat.lt_irrefl, if_false] at h1 h2
+          cases ax <;> simp only at h1 h2
+          · cases h1
+          · split at h1
+            · rename_i c; split at h2
+              · rename_i c'; simp only [Bool.and_eq_true, beq_iff_eq] at c c'; omega
+              · split at h2 <;> cases h2
+            · split at h1 <;> cases h1
+          · split at h1
+            · rename_i c; split at h2
+              · rename_i c'; simp only [Bool.and_eq_true, beq_iff_eq] at c c'; omega
+              · split at h2 <;> cases h2
+            · split at h1 <;> cases h1
+
+/-- **The resolution of an entry does not depend on the order of its actions**: the same actions listed in any
+    two orders are resolved to the same action, or in both orders to none (the rule emerge applies since c31491e;
+    the dependency's own running-maximum search could fail for one order and succeed for another). -/
+theorem C06_resolution_order_independent (a : Nat) {acts₁ acts₂ : List (Nat × Nat)} (h : acts₁.Perm acts₂) :
+    LALR.resolveCell g a acts₁ = LALR.resolveCell g a acts₂ := by
+  have := Dominant.dominant_perm (fun x y => LALR.beats g a x y == some true)
+    (fun x y h1 h2 => C06_beats_asymm g a x y (by simpa using h1) (by simpa using h2)) h
+  simp only [Dominant.dominant] at this
+  simp only [LALR.resolveCell]
+  exact this
 
 /-- A cell with a single action is never a conflict. -/
 theorem C06_single_action (a : Nat) (x : Nat × Nat) : LALR.resolveCell g a [x] = some x := by
